@@ -27,6 +27,8 @@ import (
 //	mhas g id ts             tim.HasRecent(g, id, ts)        -> true | false
 //	win bts th ts            NewTimestampRange(bts,th).CheckTx -> in | expired | future
 //	dump                     maxTSInDB / cached list count per group, sorted m.locators keys
+//	restart                  new locator manager / TXID manager over the SAME database (node restart);
+//	                         all earlier loggers are dead (ops on them: bad-op), handles keep counting
 func init() {
 	Register(&Prop{ID: "C11", Gen: c11Gen, New: func() Runner { return c11New() }})
 }
@@ -76,9 +78,11 @@ type c11Block struct {
 	order     []int
 	committed bool
 	added     bool
+	epoch     int // number of restarts before the block was created
 }
 
 type c11Runner struct {
+	epoch int
 	dbase   db.Database
 	lm      module.LocatorManager
 	tsc     *service.TxTimestampChecker
@@ -158,6 +162,13 @@ func (r *c11Runner) classify(i, b int, ts int64) string {
 // classifyFrom: `from` is the first tracker whose guard is evaluated on the way to b.
 func (r *c11Runner) classifyFrom(from, b int, ts int64) string {
 	B := r.blocks[b]
+	if B.committed && B.epoch < r.epoch {
+		// finalized before a restart: the new manager knows it only through the database
+		if r.laterWindowEndsEarlier(B.g, ts) {
+			return "replay-after-restart-beyond-later-window-end"
+		}
+		return "replay-after-restart"
+	}
 	if !B.committed && ts == B.ts+B.th {
 		return "replay-at-upper-boundary-of-unfinalized-ancestor"
 	}
@@ -174,6 +185,38 @@ func (r *c11Runner) classifyFrom(from, b int, ts int64) string {
 		return "replay-at-upper-boundary-of-finalized-block"
 	}
 	return "replay-in-finalized-block"
+}
+
+// laterWindowEndsEarlier: some block finalized since the last restart (timestamp != 0) has a
+// window that ends before ts, i.e. the window ends are not monotone across the restart.
+func (r *c11Runner) laterWindowEndsEarlier(g int, ts int64) bool {
+	for _, p := range r.final[g] {
+		P := r.blocks[p]
+		if P.epoch == r.epoch && P.ts != 0 && P.ts+P.th < ts {
+			return true
+		}
+	}
+	return false
+}
+
+func (r *c11Runner) restart() {
+	txlocator.VerifWaitFlush(r.lm)
+	logger := log.New()
+	logger.SetLevel(log.FatalLevel)
+	lm, err := txlocator.NewManager(r.dbase, logger)
+	if err != nil {
+		panic(err)
+	}
+	tsc := service.NewTimestampChecker()
+	tim, err := service.NewTXIDManager(lm, tsc, nil)
+	if err != nil {
+		panic(err)
+	}
+	r.lm, r.tsc, r.tim = lm, tsc, tim
+	for i := range r.loggers {
+		r.loggers[i] = nil
+	}
+	r.epoch++
 }
 
 func (r *c11Runner) Step(t []string, o *Oracle) string {
@@ -201,7 +244,10 @@ func (r *c11Runner) Step(t []string, o *Oracle) string {
 			l = r.tim.NewLogger(module.TransactionGroupPatch, int64(len(r.loggers)), ts)
 		}
 		r.loggers = append(r.loggers, l)
-		r.blocks = append(r.blocks, &c11Block{g: g, ts: ts, th: th, parent: -1, txs: map[int]int64{}})
+		r.blocks = append(r.blocks, &c11Block{g: g, ts: ts, th: th, parent: -1, txs: map[int]int64{}, epoch: r.epoch})
+		if ts == 0 && th != 0 {
+			o.Count("root-service-style-ts0")
+		}
 		o.Count("root")
 		return "ok"
 	case "new":
@@ -211,12 +257,12 @@ func (r *c11Runner) Step(t []string, o *Oracle) string {
 		p, ok1 := c11Nat(t[1])
 		ts, ok2 := c11I64(t[2])
 		th, ok3 := c11I64(t[3])
-		if !ok1 || !ok2 || !ok3 || p >= len(r.loggers) {
+		if !ok1 || !ok2 || !ok3 || p >= len(r.loggers) || r.loggers[p] == nil {
 			return "bad-op"
 		}
 		l := r.loggers[p].NewLogger(int64(len(r.loggers)), ts, th)
 		r.loggers = append(r.loggers, l)
-		r.blocks = append(r.blocks, &c11Block{g: r.blocks[p].g, ts: ts, th: th, parent: p, txs: map[int]int64{}})
+		r.blocks = append(r.blocks, &c11Block{g: r.blocks[p].g, ts: ts, th: th, parent: p, txs: map[int]int64{}, epoch: r.epoch})
 		o.Count("new")
 		if th != r.blocks[p].th {
 			o.Count("new-threshold-changed")
@@ -228,7 +274,7 @@ func (r *c11Runner) Step(t []string, o *Oracle) string {
 		}
 		i, ok1 := c11Nat(t[1])
 		f, ok2 := c11Group(t[2])
-		if !ok1 || !ok2 || i >= len(r.loggers) {
+		if !ok1 || !ok2 || i >= len(r.loggers) || r.loggers[i] == nil {
 			return "bad-op"
 		}
 		B := r.blocks[i]
@@ -248,6 +294,14 @@ func (r *c11Runner) Step(t []string, o *Oracle) string {
 			ids = append(ids, id)
 			tss = append(tss, ts)
 			list.txs = append(list.txs, &c11Tx{id: c11ID(id), ts: ts, g: module.TransactionGroup(B.g)})
+		}
+		for k, id := range ids {
+			for _, b := range r.final[B.g] {
+				A := r.blocks[b]
+				if ats, ok := A.txs[id]; ok && A.epoch < r.epoch && ats == tss[k] && c11InWindow(A.ts, A.th, ats) && c11InWindow(B.ts, B.th, ats) {
+					o.Count("add-offers-id-finalized-before-restart")
+				}
+			}
 		}
 		cnt, err := r.loggers[i].Add(list, f == 1)
 		if err != nil {
@@ -325,7 +379,7 @@ func (r *c11Runner) Step(t []string, o *Oracle) string {
 			return "bad-op"
 		}
 		i, ok := c11Nat(t[1])
-		if !ok || i >= len(r.loggers) {
+		if !ok || i >= len(r.loggers) || r.loggers[i] == nil {
 			return "bad-op"
 		}
 		if err := r.loggers[i].Commit(); err != nil {
@@ -353,7 +407,7 @@ func (r *c11Runner) Step(t []string, o *Oracle) string {
 		i, ok1 := c11Nat(t[1])
 		id, ok2 := c11Nat(t[2])
 		ts, ok3 := c11I64(t[3])
-		if !ok1 || !ok2 || !ok3 || i >= len(r.loggers) {
+		if !ok1 || !ok2 || !ok3 || i >= len(r.loggers) || r.loggers[i] == nil {
 			return "bad-op"
 		}
 		has, err := r.loggers[i].Has(c11ID(id), ts)
@@ -406,7 +460,12 @@ func (r *c11Runner) Step(t []string, o *Oracle) string {
 				A := r.blocks[b]
 				if ats, ok := A.txs[id]; ok && ats == ts && c11InWindow(A.ts, A.th, ats) {
 					key := "mhas-misses-finalized"
-					if ts == A.ts+A.th {
+					if A.epoch < r.epoch {
+						key = "mhas-misses-finalized-after-restart"
+						if r.laterWindowEndsEarlier(g, ts) {
+							key = "mhas-misses-finalized-after-restart-beyond-later-window-end"
+						}
+					} else if ts == A.ts+A.th {
 						key = "mhas-misses-finalized-at-upper-boundary"
 					}
 					o.Check(has, key, "HasRecent(%d, ts %d) false although finalized block %d (ts %d th %d) holds it", id, ts, b, A.ts, A.th)
@@ -446,6 +505,13 @@ func (r *c11Runner) Step(t []string, o *Oracle) string {
 			return "future"
 		}
 		return "err"
+	case "restart":
+		if len(t) != 1 {
+			return "bad-op"
+		}
+		r.restart()
+		o.Count("restart")
+		return "ok"
 	case "dump":
 		if len(t) != 1 {
 			return "bad-op"
@@ -493,6 +559,7 @@ type c11GenBlock struct {
 	ids       []int
 	committed bool
 	added     bool
+	dead      bool
 }
 
 type c11GenCase struct {
@@ -512,6 +579,27 @@ func (c *c11GenCase) emitNew(p int, ts, th int64) int {
 	c.g.Emit("new %d %d %d", p, ts, th)
 	c.blocks = append(c.blocks, &c11GenBlock{g: c.blocks[p].g, ts: ts, th: th, parent: p})
 	return len(c.blocks) - 1
+}
+
+func (c *c11GenCase) emitRestart() {
+	c.g.Emit("restart")
+	for _, B := range c.blocks {
+		B.dead = true
+	}
+}
+
+// pick returns a random live block (def if there is none)
+func (c *c11GenCase) pick(def int) int {
+	var alive []int
+	for i, B := range c.blocks {
+		if !B.dead {
+			alive = append(alive, i)
+		}
+	}
+	if len(alive) == 0 || c.g.Intn(40) == 0 {
+		return def
+	}
+	return alive[c.g.Intn(len(alive))]
 }
 
 func (c *c11GenCase) fresh(ts int64) int {
@@ -640,7 +728,7 @@ func (c *c11GenCase) randomCase() {
 		case k < 7: // extend the chain (sometimes fork)
 			p := tip
 			if g.Intn(6) == 0 {
-				p = g.Intn(len(c.blocks))
+				p = c.pick(tip)
 			}
 			P := c.blocks[p]
 			nth := c.nextTh(mode, P.th)
@@ -650,8 +738,28 @@ func (c *c11GenCase) randomCase() {
 			if p == tip || g.Intn(2) == 0 {
 				tip = b
 			}
-		case k < 9: // add to some block again / late
-			c.addTo(g.Intn(len(c.blocks)))
+		case k < 9: // add to some block again / late, or restart the node
+			if g.Intn(5) == 0 {
+				lastTs, lastTh := c.blocks[tip].ts, c.blocks[tip].th
+				c.emitRestart()
+				rts := int64(0) // the service creates its root loggers with timestamp 0
+				if g.Intn(5) == 0 {
+					rts = lastTs
+				}
+				rth := lastTh
+				if rth == 0 || g.Intn(4) == 0 {
+					rth = int64(g.Pick(1, 5, 10, 50))
+				}
+				r := c.emitRoot(grp, rts, rth)
+				b := c.emitNew(r, c.nextTs(lastTs, lastTh), c.nextTh(mode, lastTh))
+				c.addTo(b)
+				tip = b
+				if g.Intn(2) == 0 {
+					c.emitCommit(b)
+				}
+				break
+			}
+			c.addTo(c.pick(tip))
 		case k < 13: // commit: mostly the oldest unfinalized ancestor of the tip
 			b := tip
 			if g.Intn(4) != 0 {
@@ -659,7 +767,7 @@ func (c *c11GenCase) randomCase() {
 					b = c.blocks[b].parent
 				}
 			} else if g.Intn(3) == 0 {
-				b = g.Intn(len(c.blocks))
+				b = c.pick(tip)
 			}
 			c.emitCommit(b)
 		case k < 16:
@@ -703,7 +811,7 @@ func (c *c11GenCase) query(op string) {
 		ts += int64(g.Intn(3) - 1)
 	}
 	if op == "has" {
-		g.Emit("has %d %d %d", g.Intn(len(c.blocks)), id, ts)
+		g.Emit("has %d %d %d", c.pick(len(c.blocks)-1), id, ts)
 	} else {
 		g.Emit("mhas %d %d %d", g.Intn(2), id, ts)
 	}
@@ -769,7 +877,60 @@ func (c *c11GenCase) templateCase() {
 	if g.Intn(5) == 0 {
 		grp = 0
 	}
-	switch g.Intn(4) {
+	switch g.Intn(6) {
+	case 4, 5:
+		// node restart: X finalized and flushed, new manager on the same database, service-style
+		// root logger (ts 0, threshold != 0), first new blocks evict it, then X is offered again
+		th := int64(g.Pick(5, 10, 20))
+		ts := int64(100 + g.Intn(300))
+		r := c.emitRoot(grp, 0, th)
+		a := c.emitNew(r, ts, th)
+		x := c.fresh(ts + th - int64(g.Pick(0, 0, 1, int(th))))
+		c.emitAdd(a, false, []int{c.fresh(ts), x})
+		c.emitCommit(a)
+		tip := a
+		if g.Intn(2) == 0 {
+			tip = c.emitNew(a, ts+1+int64(g.Intn(3)), th)
+			c.emitAdd(tip, false, []int{c.fresh(c.blocks[tip].ts)})
+			c.emitCommit(tip)
+		}
+		lastTs := c.blocks[tip].ts
+		c.emitRestart()
+		th2 := th
+		if g.Intn(4) == 0 {
+			th2 = int64(g.Pick(1, 3, 40)) // threshold changed by governance
+		}
+		r2 := c.emitRoot(grp, 0, th2)
+		tip = r2
+		n := 1 + g.Intn(3)
+		for k := 0; k < n; k++ {
+			if th2 < th && g.Intn(3) != 0 {
+				// lowered threshold: blocks far enough apart to evict one another while their
+				// windows still end before X's timestamp
+				lastTs += 2*th2 + int64(g.Intn(2))
+			} else {
+				lastTs += 1 + int64(g.Intn(int(th)))
+			}
+			tip = c.emitNew(tip, lastTs, th2)
+			c.emitAdd(tip, false, []int{c.fresh(lastTs)})
+			if g.Intn(4) != 0 {
+				c.emitCommit(tip)
+			}
+		}
+		g.Emit("dump")
+		g.Emit("mhas %d %d %d", grp, x, c.tsOf[x])
+		// a block whose window contains X's timestamp
+		thd := th2
+		if g.Intn(3) == 0 {
+			thd = th2 + int64(g.Intn(30))
+		}
+		tsd := lastTs + int64(g.Intn(3))
+		if g.Intn(3) != 0 && c.tsOf[x]+thd-1 > tsd {
+			tsd = c.tsOf[x] + thd - 1 - int64(g.Intn(2))
+		}
+		d := c.emitNew(tip, tsd, thd)
+		g.Emit("has %d %d %d", d, x, c.tsOf[x])
+		c.emitAdd(d, false, []int{c.fresh(tsd), x})
 	case 0:
 		// duplicate at the upper window boundary of a parent (unfinalized or finalized)
 		th := int64(g.Pick(1, 5, 10, 50))
